@@ -106,6 +106,13 @@ def build():
                    "old(self._balls) else n_posts() == 0)"),
                   SEARCH],
          modifies=["self._balls", "self.ball_search.enabled"], raises={}, inline_calls=True)
+    def target_init(I, name):
+        """the target of an eject is this playfield, or another device (objects never alias symbolically, so the two
+        cases are separate entry states)"""
+        if I.ctx.fork(2) == 0:
+            return I.frames[0].env["self"]
+        return VObj(Obj("Playfield", ObjS("Playfield", {}), "another_device"))
+    TARGET = Init(target_init)
     OTHERS = "self.available_balls == old(self.available_balls) and self.num_balls_requested == old(self.num_balls_requested)"
     C.fn("Playfield.add_missing_balls", params=dict(balls=Int),
          ensures=[("P2: a ball that went missing elsewhere is counted on the playfield: balls and available balls "
@@ -126,7 +133,7 @@ def build():
                               "n more balls are requested"),
                              ("_source_device_eject_failed", "- balls", "a failed eject takes its n balls back out of "
                               "the requested count")):
-        C.fn("Playfield." + fn_, params=dict(balls=Int, target=Opt(ObjS("Playfield")), kwargs=Opaque("Kwargs")),
+        C.fn("Playfield." + fn_, params=dict(balls=Int, target=TARGET, kwargs=Opaque("Kwargs")),
              ensures=[("P5: " + what + " - only for this playfield",
                        "self.num_balls_requested == (old(self.num_balls_requested) " + delta + " if target is self "
                        "else old(self.num_balls_requested))"),
@@ -134,7 +141,7 @@ def build():
                                                           "== old(self.available_balls)")],
              modifies=["self.num_balls_requested"], raises={})
     C.fn("Playfield._source_device_eject_success",
-         params=dict(balls=Int, target=Opt(ObjS("Playfield")), kwargs=Opaque("Kwargs")),
+         params=dict(balls=Int, target=TARGET, kwargs=Opaque("Kwargs")),
          ensures=[("P6: a confirmed eject moves n balls from `requested` to `on the playfield`",
                    "(self._balls == old(self._balls) + balls and self.num_balls_requested == "
                    "old(self.num_balls_requested) - balls) if target is self else (self._balls == old(self._balls) and "
@@ -142,7 +149,7 @@ def build():
                   ("available balls are not touched", "self.available_balls == old(self.available_balls)")],
          raises={"AssertionError": "target is self and self.num_balls_requested - balls < 0"},
          modifies=["self._balls", "self.num_balls_requested", "self.ball_search.enabled"])
-    C.fn("Playfield._source_device_ball_lost", params=dict(target=Opt(ObjS("Playfield")), kwargs=Opaque("Kwargs")),
+    C.fn("Playfield._source_device_ball_lost", params=dict(target=TARGET, kwargs=Opaque("Kwargs")),
          ensures=[("P7: a ball lost on its way here is no longer available to this playfield",
                    "self.available_balls == (old(self.available_balls) - 1 if target is self else "
                    "old(self.available_balls))"),
